@@ -57,6 +57,14 @@ func (c *c04) drain(tc *TwoChain, shape ref.TreeShape, label string, tr []string
 		run.Hit("C04.recorded_withdrawal_is_committable")
 	}
 	tc.L1.L1.NextBlock(tc.Period + time.Second)
+	// a late challenge: once the output is final nobody can take it away again (its unclaimed withdrawals would be lost)
+	roles := tc.L1.Bridges[tc.Bridge]
+	for _, who := range []string{roles.Challenger.String(), roles.Proposer.String(), tc.L1.L1.Gov} {
+		if dr := tc.L1.L1.Deliver(ophosttypes.NewMsgDeleteOutput(who, tc.Bridge, o.Index)); dr.Class == sim.OK {
+			run.Fail("C04.every_leaf_finalizes", "c04.final_output_deleted", append(tr, fmt.Sprintf("%s: output %d was final; DeleteOutput by %s -> ok", label, o.Index, short(who))), "a final output holding unclaimed withdrawals was deleted: they can never be claimed")
+			return
+		}
+	}
 	order := c.rng.Intn(2)
 	n := len(o.Ws)
 	for k := 0; k < n; k++ {
